@@ -1831,6 +1831,23 @@ func (a *Act) backEdge(from *ssa.BasicBlock, hdr *ssa.BasicBlock, cond string, s
 			g.oblige("inv-preserve", fmt.Sprintf("%s:auto:recv-slices#%d:edge%d", lname, i, be), cond, c, p1, "automatic invariant: slices of the receiver use their original array or memory allocated during the call")
 		}
 	}
+	if (a.top || a.letsAtEntry) && a.ct != nil && g.eng.curModes.Post {
+		// claims anchored on "the end of an iteration" (`loopend:`): obligations at every back edge, in the state the
+		// iteration ends in (names are the function's variables as at a cut; lets captured during the iteration are in
+		// scope). Unlike an invariant they are not assumed at the loop head.
+		for _, c := range a.ct.Cuts {
+			if c.Anchor != "loopend:" || c.Let != "" || c.Use {
+				continue
+			}
+			if a.firedCuts == nil {
+				a.firedCuts = map[*Cut]bool{}
+			}
+			a.firedCuts[c] = true
+			for j, t := range a.evalClauseAt(c.Cl, st, nil, nil) {
+				g.oblige("cut", fmt.Sprintf("%s:loopend:edge%d", clauseLabel(c.Cl, 0, j), be), cond, t, p1, "at the end of an iteration: "+c.Cl.Text)
+			}
+		}
+	}
 	if g.trackLocks && lc.locksAtHead != "" {
 		g.oblige("inv-preserve", fmt.Sprintf("%s:auto:locks:edge%d", lname, be), cond, fmt.Sprintf("(= %s %s)", g.locksNow(st), lc.locksAtHead), p1, "lock balance: an iteration releases the mutexes it locks")
 	}
